@@ -97,6 +97,8 @@ func init() {
 		bodyHash("hashH264NalType", "media/cache/h264cache.go", "H264Cache", "nalType")
 		bodyHash("hashHevcPayloadType", "media/cache/hevccache.go", "HevcCache", "getPalyloadType")
 		bodyHash("hashHevcNalType", "media/cache/hevccache.go", "HevcCache", "nalType")
+		bodyHash("hashH264KeyFragment", "media/cache/h264cache.go", "H264Cache", "keyFragment")
+		bodyHash("hashHevcKeyFragment", "media/cache/hevccache.go", "HevcCache", "keyFragment")
 		conds("condsH264CachePack", "media/cache/h264cache.go", "H264Cache", "CachePack")
 		conds("condsHevcCachePack", "media/cache/hevccache.go", "HevcCache", "CachePack")
 		conds("condsConsSend", "media/consumption.go", "consumption", "send")
